@@ -17,6 +17,13 @@ class ClassInfo(object):
     self.bases = d.get('bases', None)        # None = read from the ClassDef
     self.always_true = d.get('truthy', True)
     self.consts = d.get('consts', {})        # class-level constants for extern classes
+    # dict-like record (message properties): constant string key -> (field name, type);
+    # each key has a value field and a presence field 'has_<name>'
+    self.dictlike = d.get('dictlike', None)
+    if self.dictlike:
+      for key, (fname, fty) in self.dictlike.items():
+        self.fields[fname] = parse_type(fty)
+        self.fields['has_' + fname] = parse_type('bool')
     self.final = d.get('final', False)       # no subclasses: dynamic class tag is known for every reference of this type
 
 
